@@ -26,7 +26,7 @@ WATCHDOG = {"quick": 900, "thorough": 3300}
 REQUIRED = {"expansion>=2x2": 10, "nesting-depth-3": 20, "resonance-without-alternatives": 20, "resonance-with>=2-alternatives": 20, "resonance-with-3-alternatives": 5,
             "tag:[S]": 10, "tag:[P]": 10, "tag:[D]": 10, "tag:[ls]": 10, "tag:[spin;ls]": 10, "cartesian:absent": 10, "cartesian:0": 10, "cartesian:1": 10,
             "parameter-rows": 20, "constant-rows": 20, "crlf": 5, "comments": 20, "eventtype-not-first": 5, "amplitudes>=8": 5, "unmemoised-read": 1, "flag-as-float-or-signed-literal": 10, "constant-name-repeated": 5, "ignored-line-kinds": 5,
-            "shipped-model-or-test-text": 1, "read-after-a-failed-cartesian-read": 10, "conjugate-event-type": 20, "same-named-siblings-written-differently": 3, "same-complete-line-written-twice": 5, "coupling-very-small-or-phase-next-to-0-or-pi": 20, "free-flag-written-as-0.0-or-+0": 10}
+            "shipped-model-or-test-text": 1, "read-after-a-failed-cartesian-read": 10, "conjugate-event-type": 20, "bare-use-in-another-spelling-of-the-particle": 5, "same-named-siblings-written-differently": 3, "same-complete-line-written-twice": 5, "coupling-very-small-or-phase-next-to-0-or-pi": 20, "free-flag-written-as-0.0-or-+0": 10}
 ASSUMPTIONS = ["PDG IDs of the 29 AmpGen-style names of the golden pool are fixed in vmon/ampgen.py", "amplitude fixedness (line.fix) is not compared with the input flags (DESIGN 5.8)",
                "the order of amplitudes inside the expansion of one written line is not compared (multiset); groups follow file order",
                "name lookups are memoised per (name, particle-table size) after their first real execution in the process"]
@@ -39,6 +39,8 @@ def classify(ctx, model, exp):
         return 0 if n.kids is None else 1 + max(depth(k) for k in n.kids)
 
     def walk(n):
+        if getattr(n, "alt_spelling", False):
+            ctx.hit("bare-use-in-another-spelling-of-the-particle")
         if n.kids is None:
             if n.name in A.RES2 or n.name in A.RES3:
                 k = len(subs.get(n.name, []))
